@@ -31,7 +31,8 @@ RULE = (
     "Non-trivial = (width != 2 or >= 2 channels) and >= 1 sample."
 )
 MUST_HIT = ["skip_between_samples", "empty_slice", "lazy_reader", "wav_sw1", "wav_sw4", "placeholder_name",
-            "exists_refused", "numpy_multichannel", "to_file_byteslike", "skip_beyond_65536_samples", "explicit_format", "to_file_typed_array", "more_than_1MiB"]
+            "exists_refused", "numpy_multichannel", "to_file_byteslike", "skip_beyond_65536_samples", "explicit_format", "to_file_typed_array", "more_than_1MiB", "same_path_rewritten",
+            "numpy_export_modified_then_exported_again"]
 ASSUMPTIONS = ["files are re-read with stdlib wave/open to judge the writer independently of the reader"]
 BOUNDS = {"quick": dict(n=500, maxN=200), "thorough": dict(n=6000, maxN=1500)}
 _ctr = [0]
@@ -189,6 +190,28 @@ def check_case(case, rec):
                 f"{' with different content' if len(got) == len(want) else ''}, expected samples [{a},{b}) of {N}", case)
         if params != (sr, sw, ch):
             raise Violation(f"audio parameters after {reader}: {params} != {(sr, sw, ch)}", case)
+        # ---- the same path written again with other audio of the same byte size, read lazily again
+        if case.get("rewrite") and fmt == "wav" and N and len(data) % 4 == 0:
+            fmt2 = [(sr + 1, 4, 1), (sr * 2, 2, 2), (max(sr // 2, 1), 1, 4), (sr, 2, 2)][case["rewrite"] % 4]
+            if fmt2 != (sr, sw, ch):
+                data2 = data[::-1]
+                with wave.open(path, "wb") as fp:
+                    fp.setframerate(fmt2[0])
+                    fp.setsampwidth(fmt2[1])
+                    fp.setnchannels(fmt2[2])
+                    fp.writeframes(data2)
+                for lazy2 in (True, False):
+                    kw2 = {"audio_format": audio_format} if audio_format and how.startswith("explicit") else {}
+                    src2 = from_file(path, large_file=lazy2, **kw2)
+                    src2.open()
+                    got2 = src2.read(len(data2)) or b""
+                    src2.close()
+                    p2 = (src2.sampling_rate, src2.sample_width, src2.channels)
+                    if p2 != fmt2 or got2 != data2:
+                        raise Violation(
+                            f"file rewritten in place as {fmt2} ({'lazy' if lazy2 else 'eager'} read): parameters {p2}, "
+                            f"{len(got2)} bytes read of {len(data2)}", case)
+                classes.add("same_path_rewritten")
         # ---- numpy export
         arr = region.numpy()
         if tuple(arr.shape) != (ch, N):
@@ -207,6 +230,19 @@ def check_case(case, rec):
                 raise Violation(f"numpy()[{c}] differs from the signed little-endian samples of channel {c}", case)
         if ch > 1 and N:
             classes.add("numpy_multichannel")
+        if N and N <= 5000:
+            # an export the caller scribbles on must not change what the (immutable) region exports next
+            try:
+                arr[...] = 0
+            except (ValueError, TypeError):
+                pass  # read-only export: fine too
+            again = region.numpy()
+            for c in range(ch):
+                if again[c].tolist() != [float(v) for v in vals[c::ch]]:
+                    raise Violation("numpy() after the caller modified an earlier export no longer holds the sample values", case)
+            if bytes(region) != data:
+                raise Violation("modifying a numpy() export changed the region's bytes", case)
+            classes.add("numpy_export_modified_then_exported_again")
         if N > 65536 and skip is not None and a > 65536:
             classes.add("skip_beyond_65536_samples")
         if len(data) > 2**20:
@@ -230,6 +266,8 @@ def explicit_cases():
     return [
         base,
         dict(base, sw=4, reader="load_lazy", skip=[40, 0], mr=None),
+        dict(base, sw=2, ch=2, reader="from_file_lazy", rewrite=1, tmpl=None, skip=None, mr=None),
+        dict(base, sw=2, ch=2, reader="load_lazy", rewrite=3, tmpl=None, skip=None, mr=None),
         dict(base, sw=4, fmt="raw", reader="AudioRegion.load", skip=None, mr=[0, 0]),
         dict(base, pre_existing=True, exists_ok=False),
         dict(base, writer="save_path", pre_existing=True, exists_ok=False, tmpl=None),
@@ -274,6 +312,7 @@ def strategy(draw, maxN):
                 path_obj=draw(st.booleans()),
                 data_kind=draw(st.sampled_from(["bytes", "bytes", "bytearray", "memoryview", "array", "numpy"])),
                 mixed=draw(st.sampled_from(["WAVE", "Wave", "Wav", "wAVE"])),
+                rewrite=draw(st.integers(0, 7)),
                 skip=draw(st.one_of(st.none(), st.tuples(st.integers(0, N + 4), st.sampled_from([0, 0.25, 0.5, 0.75])).map(list),
                                  st.tuples(st.integers(max(N - 4000, 0), N + 4), st.sampled_from([0, 0.25])).map(list))),
                 mr=draw(st.one_of(st.none(), st.tuples(st.integers(0, N + 4), st.sampled_from([0, 0.25, 0.5, 0.75])).map(list))))
